@@ -248,6 +248,12 @@ func (c *modsetCache) callMods(fr *frame, fn *ssa.Function, cc *ssa.CallCommon, 
 			key = callee.Origin().String()
 		}
 	}
+	if callee == nil && !cc.IsInvoke() {
+		k := "functype:" + types.TypeString(cc.Value.Type(), nil)
+		if _, ok := e.db.ByKey[k]; ok {
+			key = k
+		}
+	}
 	if ct := e.db.ByKey[key]; ct != nil && !ct.Inline {
 		if ct.HasMods || ct.Trusted {
 			var sig *types.Signature
